@@ -648,6 +648,7 @@ bool BW_MidiSequencer::buildSmfTrackData(const std::vector<std::vector<uint8_t> 
                 int len = snprintf(error, 150, "buildTrackData: Can't read variable-length value at begin of track %d.\n", (int)tk);
                 if((len > 0) && (len < 150))
                     m_parsingErrorsString += std::string(error, (size_t)len);
+                buildSmfSetupReset(0); // Don't leave half-built tracks behind
                 return false;
             }
 
@@ -674,6 +675,7 @@ bool BW_MidiSequencer::buildSmfTrackData(const std::vector<std::vector<uint8_t> 
                 int len = snprintf(error, 150, "buildTrackData: Fail to parse event in the track %d.\n", (int)tk);
                 if((len > 0) && (len < 150))
                     m_parsingErrorsString += std::string(error, (size_t)len);
+                buildSmfSetupReset(0); // Don't leave half-built tracks behind
                 return false;
             }
 
